@@ -10,6 +10,10 @@
 //!        expect  `=<dump>`  generated well-formed tree: the result must be exactly this dump
 //!                `!<kind>`  generated tree with one structural error: the result must be ERR
 //!                absent     mutant of a repository file: only "no panic" is required
+//!   REN <hex utf-8 text>            parse; if Ok: render the structure canonically (maps sorted by key, the
+//!                                   Rust transcription of Model/Ndl.v `render`), and parse the tab, 4-space,
+//!                                   CRLF and 4-space+CRLF forms of that text again
+//!        result  `REN <hex of the tab rendering> same=1111` (1 = that form parses to the same structure)
 //!   FOLD <lo> <hi>                  scalar values whose lower-casing is an ASCII letter (model of
 //!                                   char::to_lowercase as used by nom's tag_no_case)
 //!
@@ -159,6 +163,81 @@ fn run_parser(text: &str) -> String {
         Ok(Err(e)) => classify(&e),
         Err(_) => "PANIC".into(),
     }
+}
+
+// ------------------------------------------------------------------ canonical rendering of a parsed structure
+
+fn render_params(p: &HashMap<String, String>, out: &mut String) {
+    let mut l: Vec<(&String, &String)> = p.iter().collect();
+    l.sort_by(|a, b| hx(a.0).cmp(&hx(b.0)));
+    for (k, v) in l {
+        out.push(' ');
+        out.push_str(k);
+        out.push_str("='");
+        out.push_str(v);
+        out.push('\'');
+    }
+}
+fn render_canon_line(depth: usize, ty: &str, p: &HashMap<String, String>, out: &mut String) {
+    for _ in 0..depth {
+        out.push('\t');
+    }
+    out.push('[');
+    out.push_str(ty);
+    render_params(p, out);
+    out.push_str("]\n");
+}
+fn type_word(d: &DecType) -> String {
+    format!("{:?}", d)
+}
+/// transcription of Model/Ndl.v `render` (with maps in sorted order)
+fn render_canon(s: &Sim) -> String {
+    let mut out = String::new();
+    let empty = HashMap::new();
+    render_canon_line(0, "Networks", &empty, &mut out);
+    let mut nets: Vec<(&String, &Network)> = s.networks.iter().collect();
+    nets.sort_by(|a, b| hx(a.0).cmp(&hx(b.0)));
+    for (_, n) in nets {
+        render_canon_line(1, &type_word(&n.dectype), &n.options, &mut out);
+        for i in &n.ip {
+            render_canon_line(2, &type_word(&i.dectype), &i.options, &mut out);
+        }
+    }
+    render_canon_line(0, "Machines", &empty, &mut out);
+    for m in &s.machines {
+        render_canon_line(1, &type_word(&m.dectype), m.options.as_ref().unwrap_or(&empty), &mut out);
+        render_canon_line(2, "Networks", &empty, &mut out);
+        for i in &m.interfaces.networks {
+            render_canon_line(3, &type_word(&i.dectype), &i.options, &mut out);
+        }
+        render_canon_line(2, "Protocols", &empty, &mut out);
+        for i in &m.interfaces.protocols {
+            render_canon_line(3, &type_word(&i.dectype), &i.options, &mut out);
+        }
+        render_canon_line(2, "Applications", &empty, &mut out);
+        for i in &m.interfaces.applications {
+            render_canon_line(3, &type_word(&i.dectype), &i.options, &mut out);
+        }
+    }
+    out
+}
+/// indentation tabs -> four spaces each (tabs inside a line are left alone)
+fn indent_spaces(t: &str) -> String {
+    let mut out = String::new();
+    for l in t.split_inclusive('\n') {
+        let n = l.chars().take_while(|c| *c == '\t').count();
+        for _ in 0..n {
+            out.push_str("    ");
+        }
+        out.push_str(&l[n..]);
+    }
+    out
+}
+
+fn parse_file(text: &str) -> Option<Result<Sim, String>> {
+    let path = scratch_path();
+    std::fs::write(&path, text.as_bytes()).expect("scratch file");
+    catch_unwind(AssertUnwindSafe(|| core_parser(path.clone()))).ok()
 }
 
 // ------------------------------------------------------------------ repository files
@@ -935,6 +1014,9 @@ impl Family for Ndl {
                     st.fancy = false;
                 }
                 let text = render_tree(rng, &st, &t, Defect::None).unwrap();
+                if rng.coin(1, 4) {
+                    return format!("REN {}", hx(&text));
+                }
                 format!("P {} ={}", hx(&text), dump_tree(&t))
             }
             // one structural error in an otherwise well-formed tree
@@ -973,6 +1055,9 @@ impl Family for Ndl {
                     stat(g);
                 }
                 let _ = tag;
+                if rng.coin(1, 8) {
+                    return format!("REN {}", hx(&s));
+                }
                 format!("P {}", hx(&s))
             }
         }
@@ -1003,6 +1088,32 @@ impl Family for Ndl {
                 stat("fold_sweep");
                 let line = if out.is_empty() { ".".to_string() } else { out.trim().to_string() };
                 Outcome { impl_line: line, oracle: Oracle::Ok }
+            }
+            "REN" => {
+                let text = String::from_utf8(unhex(t[1])).expect("case text is utf-8");
+                stat("ren_cases");
+                match parse_file(&text) {
+                    None => Outcome { impl_line: "PANIC".into(), oracle: Oracle::Fail("the parser panicked on this text".into()) },
+                    Some(Err(e)) => Outcome { impl_line: classify(&e), oracle: Oracle::Ok },
+                    Some(Ok(sim)) => {
+                        let d = dump_sim(&sim);
+                        let r = render_canon(&sim);
+                        let r4 = indent_spaces(&r);
+                        let forms = [r.clone(), r4.clone(), r.replace('\n', "\r\n"), r4.replace('\n', "\r\n")];
+                        let mut flags = String::new();
+                        for f in forms.iter() {
+                            let same = matches!(parse_file(f), Some(Ok(s2)) if dump_sim(&s2) == d);
+                            flags.push(if same { '1' } else { '0' });
+                        }
+                        stat("ren_ok");
+                        let oracle = if flags == "1111" {
+                            Oracle::Ok
+                        } else {
+                            Oracle::Fail(format!("an accepted description does not survive rendering + parsing: same={}", flags))
+                        };
+                        Outcome { impl_line: format!("REN {} same={}", hx(&r), flags), oracle }
+                    }
+                }
             }
             "P" => {
                 let text = String::from_utf8(unhex(t[1])).expect("case text is utf-8");
